@@ -54,10 +54,12 @@ Record variant := mk_variant {
   fx_version_pos : bool;    (* set_version inserts after the architecture qualifier *)
   fx_remove_last : bool;    (* Relation::remove of the only alternative removes the entry *)
   fx_first_substvar : bool; (* Entry::remove: a substitution variable in front counts as an item *)
-  fx_replace_ws : bool      (* Entry::replace strips the new relation's white space token by token *)
+  fx_replace_ws : bool;     (* Entry::replace strips the new relation's white space token by token *)
+  fx_in_place : bool        (* insert/push, Entry::push, set_version, set_architectures, add_profile splice
+                               in place (proposed_fixes/C11-10) instead of re-building and re-rooting *)
 }.
-Definition shipped : variant := mk_variant false false false false false false false false.
-Definition fixed : variant := mk_variant true true true true true true true true.
+Definition shipped : variant := mk_variant false false false false false false false false false.
+Definition fixed : variant := mk_variant true true true true true true true true true.
 
 (* ------------------------------------------------------------------ lists *)
 Definition insert_at {A} (i : nat) (new l : list A) : list A := firstn i l ++ new ++ skipn i l.
@@ -191,6 +193,11 @@ Definition set_reg (r : nat) (o : option hnd) : M unit :=
 (* a temporary register for a handle that has to survive a mutation *)
 Definition push_tmp (h : hnd) : M nat :=
   fun s => Ok (length (regs s), mk_state (trees s) (regs s ++ [Some h])).
+Fixpoint push_tmps (hs : list hnd) : M (list nat) :=
+  match hs with
+  | [] => ret []
+  | h :: r => k <- push_tmp h ;; ks <- push_tmps r ;; ret (k :: ks)
+  end.
 Definition scoped {A} (m : M A) : M A :=
   fun s => match m s with
            | Ok (a, s') => Ok (a, mk_state (trees s') (firstn (length (regs s)) (regs s')))
@@ -297,6 +304,33 @@ Definition m_splice (pr lo hi : nat) (crs : list nat) : M unit :=
   cs <- children_of ph ;;
   (if (lo <? hi) && (lo <? length cs) then _ <- detach_h (child_h ph lo) ;; ret tt else ret tt) ;;
   m_attach_all pr lo crs.
+
+(* splice_children(idx..idx, new) with freshly built elements (proposed_fixes/C11-10): every
+   maximal run of tokens is made by one call of detached_tokens — the children of a throw-away
+   node, collected before the splice, which detaches them one by one —, every node is the root of
+   a new tree (a fresh copy for an operand: detached_copy) *)
+Fixpoint token_run (l : list rtree) : list rtree * list rtree :=
+  match l with
+  | Tok k s :: r => let '(a, b) := token_run r in (Tok k s :: a, b)
+  | _ => ([], l)
+  end.
+Fixpoint alloc_fresh (fuel : nat) (new : list rtree) : M (list nat) :=
+  match fuel with
+  | O => ret []
+  | S f =>
+    match new with
+    | [] => ret []
+    | Node k cs :: rest =>
+        h <- alloc true (Node k cs) ;; rn <- push_tmp h ;; rs <- alloc_fresh f rest ;; ret (rn :: rs)
+    | Tok _ _ :: _ =>
+        let '(toks, rest) := token_run new in
+        h <- alloc true (Node ROOT toks) ;;
+        rt <- push_tmps (map (child_h h) (seq 0 (length toks))) ;;
+        rs <- alloc_fresh f rest ;; ret (rt ++ rs)
+    end
+  end.
+Definition m_insert_fresh (r idx : nat) (new : list rtree) : M unit :=
+  scoped (regs <- alloc_fresh (length new) new ;; m_splice r idx idx regs).
 
 (* detach the sibling right after / right before the node in register r *)
 Definition m_detach_next (r : nat) : M unit :=
@@ -479,8 +513,12 @@ Definition reroot_self (r : nat) (mutable : bool) (g : rtree) : M unit :=
 (* Relations::insert *)
 Definition relations_insert (v : variant) (r idx re : nat) : M unit :=
   h <- get_reg r ;; t <- node_of h ;; eg <- node_of_reg re ;;
-  whole <- replace_with h (relations_insert_green v t idx eg) ;;
-  reroot_self r true whole ;; set_reg re None.
+  if fx_in_place v then
+    let '(pos, new) := insert_plan v (children t) idx eg in
+    m_insert_fresh r pos new ;; set_reg re None
+  else
+    whole <- replace_with h (relations_insert_green v t idx eg) ;;
+    reroot_self r true whole ;; set_reg re None.
 (* Relations::push *)
 Definition relations_push (v : variant) (r re : nat) : M unit :=
   h <- get_reg r ;; cs <- children_of h ;;
@@ -593,16 +631,15 @@ Definition reroot (r : nat) (mutable : bool) (g : rtree) : M unit :=
 (* Entry::push *)
 Definition entry_push (v : variant) (r rr : nat) : M unit :=
   h <- get_reg r ;; t <- node_of h ;; rg <- node_of_reg rr ;;
-  let g := entry_push_green t rg in
-  whole <- (if fx_entry_push v then ret g else replace_with h g) ;;
-  reroot r true whole ;; set_reg rr None.
+  if fx_in_place v then
+    let '(pos, new) := entry_push_plan (children t) rg in
+    m_insert_fresh r pos new ;; set_reg rr None
+  else
+    let g := entry_push_green t rg in
+    whole <- (if fx_entry_push v then ret g else replace_with h g) ;;
+    reroot r true whole ;; set_reg rr None.
 
 (* Entry::replace *)
-Fixpoint push_tmps (hs : list hnd) : M (list nat) :=
-  match hs with
-  | [] => ret []
-  | h :: r => k <- push_tmp h ;; ks <- push_tmps r ;; ret (k :: ks)
-  end.
 (* detach the first / the last child of the node in register r *)
 Definition m_detach_first (r : nat) : M unit :=
   h <- get_reg r ;; _ <- detach_h (child_h h 0) ;; ret tt.
@@ -699,11 +736,34 @@ Definition relation_set_version (v : variant) (r : nat) (ver : verspec) : M unit
     | Some i => splice_new r i (S i) (version_node vc vs)
     | None =>
       let idx := version_pos v cs in
-      reroot r true (set_children (insert_at idx [t_space; version_node vc vs] cs) t)
+      if fx_in_place v then m_insert_fresh r idx [t_space; version_node vc vs]
+      else reroot r true (set_children (insert_at idx [t_space; version_node vc vs] cs) t)
     end
   end.
 
 (* Relation::set_architectures *)
+Definition relation_set_architectures_v (v : variant) (r : nat) (archs : list str) : M unit :=
+  h <- get_reg r ;; t <- node_of h ;;
+  let cs := children t in
+  match find_index (node_is ARCHITECTURES) cs with
+  | Some i => splice_new r i (S i) (architectures_node archs)
+  | None =>
+    let idx := architectures_pos cs in
+    if fx_in_place v then m_insert_fresh r idx [t_space; architectures_node archs]
+    else reroot r true (set_children (insert_at idx [t_space; architectures_node archs] cs) t)
+  end.
+
+(* Relation::add_profile: the new group goes after the last PROFILES node, else at the end *)
+Definition relation_add_profile_v (v : variant) (r : nat) (g : list profile) : M unit :=
+  h <- get_reg r ;; t <- node_of h ;;
+  let cs := children t in
+  let idx := match last_index (node_is PROFILES) cs with Some i => S i | None => length cs end in
+  if fx_in_place v then m_insert_fresh r idx [t_space; profiles_node g]
+  else reroot r true (set_children (insert_at idx [t_space; profiles_node g] cs) t).
+
+(* the same two as the code was before proposed_fixes/C11-10 (re-building and re-rooting): the
+   resulting tree is the same; kept under their old names because model/RelConv.v (C14) builds
+   From<lossy::Relation> with them *)
 Definition relation_set_architectures (r : nat) (archs : list str) : M unit :=
   h <- get_reg r ;; t <- node_of h ;;
   let cs := children t in
@@ -713,8 +773,6 @@ Definition relation_set_architectures (r : nat) (archs : list str) : M unit :=
     let idx := architectures_pos cs in
     reroot r true (set_children (insert_at idx [t_space; architectures_node archs] cs) t)
   end.
-
-(* Relation::add_profile: the new group goes after the last PROFILES node, else at the end *)
 Definition relation_add_profile (r : nat) (g : list profile) : M unit :=
   h <- get_reg r ;; t <- node_of h ;;
   let cs := children t in
@@ -768,12 +826,24 @@ Definition relation_parse (dst : nat) (s : str) : M unit :=
     end
   end.
 
+Fixpoint add_profiles_v (v : variant) (r : nat) (gs : list (list profile)) : M unit :=
+  match gs with
+  | [] => ret tt
+  | g :: rest => relation_add_profile_v v r g ;; add_profiles_v v r rest
+  end.
+(* RelationBuilder::build: the architecture list is written only when .architectures() was called *)
+Definition builder_build_v (v : variant) (dst : nat) (name : str) (ver : verspec) (q : option str)
+           (archs : option (list str)) (profs : list (list profile)) : M unit :=
+  h <- alloc true (relation_new name ver) ;; set_reg dst (Some h) ;;
+  (match q with Some q => relation_set_archqual dst q | None => ret tt end) ;;
+  (match archs with Some a => relation_set_architectures_v v dst a | None => ret tt end) ;;
+  add_profiles_v v dst profs.
+(* with the re-rooting versions (see above; used by model/RelConv.v) *)
 Fixpoint add_profiles (r : nat) (gs : list (list profile)) : M unit :=
   match gs with
   | [] => ret tt
   | g :: rest => relation_add_profile r g ;; add_profiles r rest
   end.
-(* RelationBuilder::build: the architecture list is written only when .architectures() was called *)
 Definition builder_build (dst : nat) (name : str) (ver : verspec) (q : option str)
            (archs : option (list str)) (profs : list (list profile)) : M unit :=
   h <- alloc true (relation_new name ver) ;; set_reg dst (Some h) ;;
@@ -786,8 +856,8 @@ Definition build_relation (v : variant) (dst : nat) (sp : relspec) : M unit :=
   | RSParse s => relation_parse dst s
   | RSSimple n => h <- alloc true (relation_new n None) ;; set_reg dst (Some h)
   | RSNew n ver => h <- alloc true (relation_new n ver) ;; set_reg dst (Some h)
-  | RSBuild n ver q archs profs => builder_build dst n ver q archs profs
-  | RSLossy n ver q archs profs => builder_build dst n ver q archs profs
+  | RSBuild n ver q archs profs => builder_build_v v dst n ver q archs profs
+  | RSLossy n ver q archs profs => builder_build_v v dst n ver q archs profs
   end.
 
 (* build the relations one after the other into temporaries; the greens in order *)
@@ -891,8 +961,8 @@ Definition run_op (v : variant) (o : op) : M (N * option str) :=
       with_reg (rreg m) (b <- relation_drop_constraint (rreg m) ;; t <- reg_text (rreg m) ;;
                          ret (if b then 6%N else 7%N, t))
   | OSetArchqual m q => through (rreg m) (relation_set_archqual (rreg m) q)
-  | OSetArchs m l => through (rreg m) (relation_set_architectures (rreg m) l)
-  | OAddProfile m g => through (rreg m) (relation_add_profile (rreg m) g)
+  | OSetArchs m l => through (rreg m) (relation_set_architectures_v v (rreg m) l)
+  | OAddProfile m g => through (rreg m) (relation_add_profile_v v (rreg m) g)
   end.
 
 (* the root's text: Relations::to_string() *)
